@@ -77,6 +77,7 @@ class Ctx:
         self.c = c
         self.dtype = np.dtype(c.get("dtype", "float64"))
         self.comp0 = cfg.make_computer(c)
+        computers.poison(self.comp0)  # np.empty buffers of a fresh instance are arbitrary
         self.in_domain = c["kind"] == "stft" and self.comp0.frame_shift <= self.comp0.frame_length \
             or c["kind"] == "si" and cfg.si_domain_ok(self.comp0)
         self.nmax = nmax_for(c, self.comp0)
@@ -247,6 +248,7 @@ def replay_ops(case, seed):
     c = case["config"]
     ctx = Ctx(c, seed)
     s = St(computers.clone(ctx.comp0), 0, 0)
+    computers.poison(s.comp)
     viol = []
     for op in case["ops"]:
         s2, v, _ = _step(ctx, s, op)
